@@ -267,6 +267,12 @@ impl<K: CacheKey + 'static> MultiLayerCacheImpl<K> {
             // Put in target layer
             self.layers[to_layer].put(key.clone(), value).await?;
 
+            // The promoted value now shadows the layers in between; drop their copies so
+            // that they cannot resurface when the target layer evicts the entry
+            for shadowed in &self.layers[to_layer + 1..from_layer] {
+                shadowed.remove(&key).await?;
+            }
+
             // Update promotion tracking
             if let Ok(mut tracker) = self.promotion_tracker.write()
                 && let Some(entry_tracker) = tracker.get_mut(&key)
@@ -279,6 +285,19 @@ impl<K: CacheKey + 'static> MultiLayerCacheImpl<K> {
         } else {
             Ok(false)
         }
+    }
+
+    /// Drop the copies of `key` held by every layer slower than `layer`.
+    ///
+    /// `get()` searches faster layers first, so a value written to `layer` shadows whatever
+    /// the slower layers hold for the key. Without this, the shadowed copy is served again
+    /// as soon as the faster layer evicts or expires its entry: an older value resurfaces
+    /// after a newer put.
+    async fn invalidate_slower_layers(&self, key: &K, layer: usize) -> CacheResult<()> {
+        for slower in self.layers.iter().skip(layer + 1) {
+            slower.remove(key).await?;
+        }
+        Ok(())
     }
 
     /// Get multi-layer statistics including validation metrics
@@ -453,6 +472,7 @@ impl<K: CacheKey + 'static> MultiLayerCacheImpl<K> {
         };
 
         // Store in first layer (L1 - fastest) if validation passed
+        self.invalidate_slower_layers(&key, 0).await?;
         self.layers[0].put(key.clone(), value).await?;
 
         // Initialize promotion tracking
@@ -515,6 +535,7 @@ impl<K: CacheKey + 'static> MultiLayerCacheImpl<K> {
         };
 
         // Store in first layer (L1 - fastest) if validation passed
+        self.invalidate_slower_layers(&key, 0).await?;
         self.layers[0].put_with_ttl(key.clone(), value, ttl).await?;
 
         // Initialize promotion tracking
@@ -835,7 +856,8 @@ impl<K: CacheKey + 'static> AsyncCache<K> for MultiLayerCacheImpl<K> {
     async fn put(&self, key: K, value: Bytes) -> CacheResult<()> {
         let start_time = Instant::now();
 
-        // Store in first layer (L1 - fastest)
+        // Store in first layer (L1 - fastest); slower layers must not keep an older value
+        self.invalidate_slower_layers(&key, 0).await?;
         let result = self.layers[0].put(key.clone(), value).await;
 
         // Initialize promotion tracking
@@ -853,7 +875,8 @@ impl<K: CacheKey + 'static> AsyncCache<K> for MultiLayerCacheImpl<K> {
         let start_time = Instant::now();
         let size_bytes = value.len();
 
-        // Store in first layer (L1 - fastest)
+        // Store in first layer (L1 - fastest); slower layers must not keep an older value
+        self.invalidate_slower_layers(&key, 0).await?;
         let result = self.layers[0].put_with_ttl(key.clone(), value, ttl).await;
 
         // Initialize promotion tracking
@@ -1002,6 +1025,7 @@ impl<K: CacheKey + 'static> MultiLayerCache<K> for MultiLayerCacheImpl<K> {
             )));
         }
 
+        self.invalidate_slower_layers(&key, layer).await?;
         self.layers[layer].put(key, value).await
     }
 
